@@ -54,6 +54,9 @@ func c12GenBase(rt *rapid.T, unordered bool, maxOps int) (rigCfg, []rigOp, int) 
 		case k < 10 && opened < nStreams:
 			ops = append(ops, rigOp{K: "open"})
 			opened++
+		case k < 10 && cfg.Singleplex:
+			// a second OpenStream on a singleplex session: it must be refused and must leave no trace
+			ops = append(ops, rigOp{K: "open"})
 		case k < 40:
 			var n int
 			if unordered {
